@@ -154,10 +154,15 @@ def run_freeze(case):
             idx = []
             ok = np.isfinite(px) & np.isfinite(py)
             for s in shifts:
-                cols, rows = area.get_array_indices_from_projection_coordinates(np.where(ok, px + s, ext[0]), np.where(ok, py, ext[1]))
-                cm = np.ma.getmaskarray(cols)
-                rm = np.ma.getmaskarray(rows)
-                idx.append([[int(c), int(r), bool(a), bool(b)] for c, r, a, b in zip(np.ma.getdata(cols), np.ma.getdata(rows), cm, rm)])
+                # two trailing in-extent dummies keep the call on the array (masked) path for one-point inputs
+                cols, rows = area.get_array_indices_from_projection_coordinates(
+                    np.concatenate([np.where(ok, px + s, ext[0]), [ext[0], ext[0]]]),
+                    np.concatenate([np.where(ok, py, ext[1]), [ext[1], ext[1]]]))
+                cols, rows = cols[:-2], rows[:-2]
+                cm = np.atleast_1d(np.ma.getmaskarray(cols))
+                rm = np.atleast_1d(np.ma.getmaskarray(rows))
+                idx.append([[int(c), int(r), bool(a), bool(b)] for c, r, a, b in
+                            zip(np.atleast_1d(np.ma.getdata(cols)), np.atleast_1d(np.ma.getdata(rows)), cm, rm)])
             o["idx"] = idx
             o["shifts"] = shifts
         o["pixel_size"] = [hx(area.pixel_size_x), hx(area.pixel_size_y)]
